@@ -196,6 +196,36 @@ def make_deques(sched):
     class Used(RDeque):
         name = "used"
 
+    class UsedSet(set):
+        """the same recording for a pool that keeps its checked-out objects in a set (no order, `add`, KeyError on a missing element)"""
+        name = "used"
+
+        def __len__(self):
+            n = set.__len__(self)
+            if sched.in_get.get(sched.tid()):
+                sched.event(f"len-used {n}")
+            return n
+
+        def add(self, o):
+            sched.event(f"append-used {o.i}")
+            set.add(self, o)
+
+        append = add
+
+        def remove(self, o):
+            sched.yield_point(sched.tid())
+            try:
+                set.remove(self, o)
+            except KeyError:
+                sched.trace.append((sched.tid(), f"silent-miss {o.i}"))
+                raise
+            sched.trace.append((sched.tid(), f"remove-used {o.i}"))
+
+        def clear(self):
+            sched.event("clear-used")
+            set.clear(self)
+    make_deques.UsedSet = UsedSet
+
     class Free(RDeque):
         name = "free"
     return Used(), Free()
